@@ -11,6 +11,7 @@ TITLE = 'svf_parse_flags/svf_get_flag/svf_string/STANDARD_SCRIPT_VERIFY_FLAGS ag
 TUS = base.TUS + ['functions']
 SHIMS = ['sess', 'flags']
 NATIVE_TUS = _b.ALL_NATIVE + ['instance', 'functions', 'kerl']
+PARTS = ['C09flags']
 FUNCTIONS = ['svf_parse_flags', 'svf_get_flag', 'svf_string', 'svf table (static initialiser of btcdeb.cpp)', 'STANDARD_SCRIPT_VERIFY_FLAGS', 'StepScript(ScriptExecutionEnvironment&,...) under two flag words']
 ASSUMPTIONS = base.ASSUMPTIONS + ['exit(1) inside svf_parse_flags is the rejection outcome', 'monotonicity is decided per step from an arbitrary common pre-state; whole runs follow by induction on the number of steps',
                                   'signature checks answer through one uninterpreted oracle shared by both executions',
